@@ -374,6 +374,33 @@ func (rc *runCtx) runGossa() {
 		}
 		ld, err := gossa.Load(repoDir, "./"+g.pkg, ov)
 		if err != nil {
+			// auxiliary harness files (zz_*_aux*.go name unexported identifiers) that no longer type-check
+			// against the tree are dropped, the rest of the group still runs
+			dropped := map[string]bool{}
+			for k := range ov {
+				base := filepath.Base(k)
+				if strings.Contains(base, "_aux") && strings.Contains(err.Error(), base) {
+					dropped[base] = true
+					delete(ov, k)
+				}
+			}
+			if len(dropped) > 0 {
+				if ld2, err2 := gossa.Load(repoDir, "./"+g.pkg, ov); err2 == nil {
+					var keep []HSpec
+					for _, h := range g.specs {
+						if ld2.Pkg.Func(h.Func) == nil && h.Aux {
+							rc.unbound = append(rc.unbound, h.Func+h.Label+": its file no longer type-checks against the tree: "+tail(err.Error(), 300))
+							fmt.Printf("UNBOUND auxiliary harness %s (no longer type-checks against the tree): skipped\n", h.Func+h.Label)
+							continue
+						}
+						keep = append(keep, h)
+					}
+					g.specs = keep
+					ld, err = ld2, nil
+				}
+			}
+		}
+		if err != nil {
 			allAux := true
 			for _, h := range g.specs {
 				allAux = allAux && h.Aux
